@@ -125,6 +125,25 @@ def run(tier):
         scripts.append((name, "toggle", 0, tog, "case %s-toggle-0 20\nctx 0\nopen 0 %s r\ninit_read 0 0\nend\n" % (name, mp)))
         # and the unmodified file must open
         scripts.append((name, "plain", 0, buf, "case %s-plain-0 20\nctx 0\nopen 0 %s r\ninit_read 0 0\nend\n" % (name, path)))
+    # allocation failures: a header with one substituted byte is opened while every allocation made by zchunk's own code is
+    # refused in turn (once / from there on): the open may fail in other ways, it must not succeed (Header!Open)
+    from .. import allocfault
+    nalloc = 0
+    for fi, (name, buf) in enumerate(files[:3] if tier == "quick" else files):
+        h = ref.parse_header(buf); hl = h.hdr_total
+        o_d, n_d = h.fields["header_digest"] if "header_digest" in h.fields else (h.lead_size - len(h.header_digest), len(h.header_digest))
+        for p in sorted({o_d, o_d + n_d - 1, h.lead_size + 1, (h.lead_size + hl) // 2, hl - 1}):
+            nb = bytearray(buf); nb[p] ^= 0x01; nb = bytes(nb)
+            if ref.parse_header(nb).sealed:
+                continue
+            mp = os.path.join(wd, "%s-af-%d.zck" % (name, p)); open(mp, "wb").write(nb)
+            base = "case %s-af%d-base 20\nctx 0\nopen 0 %s r\ninit_read 0 0\nend\n" % (name, p, mp)
+            na, _ev = allocfault._count(base)
+            for k in range(1, na + 1):
+                for ln in (1, 100000):
+                    cid = "%s-af%d-a%d-%d" % (name, p, k, ln)
+                    scripts.append((name, "subst-alloc", p, nb, allocfault._arm("case %s 20\nctx 0\nopen 0 %s r\ninit_read 0 0\nend\n" % (cid, mp), k, ln))); nalloc += 1
+    ck.extra["allocation_sweep_opens"] = nalloc
     nproc = 12
     parts = ["".join(s[4] for s in scripts[i::nproc]) for i in range(nproc)]
     evs = [e for part in common.run_driver_parallel(parts, "plain") for e in part]
@@ -133,6 +152,8 @@ def run(tier):
     for (name, kind, a, b, script) in scripts:
         cid = script.split()[1]
         ce = bycase.get(cid, [])
+        if kind == "subst-alloc" and ce and not any(e["op"] == "Hang" for e in ce) and any(e["op"] == "Crash" for e in ce):
+            continue                    # the process ended on the refused allocation: nothing was reported
         if any(e["op"] in ("Crash", "Hang") for e in ce) or not ce:
             trace.append({"op": "Crash", "case": cid}); owner.append(script); continue
         if kind == "scan":
